@@ -65,8 +65,8 @@ def arSem (op : ArOp) (w x y : Nat) : Nat :=
   | .and => x &&& y
   | .or => x ||| y
   | .xor => x ^^^ y
-  | .sll => (x * 2 ^ y) % 2 ^ w
-  | .srl => x / 2 ^ y
+  | .sll => if y < w then (x * 2 ^ y) % 2 ^ w else 0
+  | .srl => if y < w then x / 2 ^ y else 0
 
 def eval (σ : Nat → Nat) : Bv → Option (Nat × Nat)
   | .const v w =>
